@@ -98,6 +98,7 @@ _SUBCLASS = {"DefaultDict": (collections.defaultdict, "dict"), "MyInt": (MyInt, 
 _ZOO = {
     "tuple0": (lambda: (), []),
     "tuple12": (lambda: (1, 2), []),
+    "tuple_with_list": (lambda: (1, [2]), []),      # a tuple (isinstance Hashable) that cannot be hashed
     "set1": (lambda: {1}, []),
     "frozenset1": (lambda: frozenset({1}), []),
     "bytearray_ab": (lambda: bytearray(b"ab"), []),
@@ -205,6 +206,9 @@ def g_value(v):
             return _UUID_LOOKALIKE       # version nibble 4, variant bits not RFC 4122: .version is None
         return uuid.UUID(int=v["id"])
     if k == "datetime":
+        if v["dt"] >= 1000:      # the same wall-clock reading with a UTC offset attached (1000: UTC, 2000: +03:00)
+            tz = _dt.timezone(_dt.timedelta(hours=0 if v["dt"] < 2000 else 3))
+            return (_dt.datetime(2020, 1, 2, 3, 4, 5) + _dt.timedelta(days=v["dt"] % 1000)).replace(tzinfo=tz)
         return _dt.datetime(2020, 1, 2, 3, 4, 5) + _dt.timedelta(days=v["dt"])
     if k == "date":
         return _dt.date(2020, 1, 2) + _dt.timedelta(days=v["d"])
@@ -302,6 +306,13 @@ def a_value(x):
             return {"k": "uuid", "ver": 0, "id": x.int}       # not an RFC 4122 UUID: version is None
         raise Unrepresentable("uuid %r" % (x,))
     if t is _dt.datetime:
+        if x.tzinfo is not None:
+            off = x.utcoffset()
+            base = {_dt.timedelta(0): 1000, _dt.timedelta(hours=3): 2000}.get(off)
+            d = x.replace(tzinfo=None) - _dt.datetime(2020, 1, 2, 3, 4, 5)
+            if base is None or d.seconds or d.microseconds or not 0 <= d.days < 500:
+                raise Unrepresentable("datetime %r" % (x,))
+            return {"k": "datetime", "dt": base + d.days}
         delta = x - _dt.datetime(2020, 1, 2, 3, 4, 5)
         if delta.seconds or delta.microseconds or abs(delta.days) > 500:
             raise Unrepresentable("datetime %r" % (x,))
